@@ -21,6 +21,9 @@ type scen struct {
 	knownID   string
 	knownCond bool
 	noVersion map[string]bool // keys whose version numbers are outside the oracle (colliding keys, C13)
+	// distinct: successive values written to one key are assumed to have different value hashes
+	// (stated bound of the harness that sets it; removes the same-value fork in checkAndSet)
+	distinct bool
 }
 
 // mval is the reference model's view of one key (statement of C01).
